@@ -40,7 +40,7 @@ func hostileFrame(c *RawConn, inflight []uint32, service string) (out []byte, de
 		frs := wire.EncCall(spec)
 		return frs[0]
 	}
-	switch k := scn(18); k {
+	switch k := scn(20); k {
 	case 0:
 		n := 1 + scn(200)
 		b := make([]byte, n)
@@ -169,6 +169,16 @@ func hostileFrame(c *RawConn, inflight []uint32, service string) (out []byte, de
 		f = append([]byte(nil), f[:cut]...)
 		binary.BigEndian.PutUint16(f, uint16(len(f)))
 		return f, fmt.Sprintf("call res for id %d truncated to %d payload bytes", id, cut-wire.HeaderSize)
+	case 18, 19:
+		// a call whose METHOD NAME (arg1) does not fit the first fragment and continues in a
+		// second one - which never comes, or is something else entirely
+		spec := wire.CallSpec{Type: wire.TCallReq, ID: pickID(), TTL: uint32(1 + scn(300)), Service: service,
+			Headers: []wire.KV{{K: "cn", V: "rawcaller"}, {K: "as", V: "raw"}}, CsumType: []byte{wire.CsumNone, wire.CsumCRC32}[scn(2)],
+			Args: [3][]byte{payload("method", 1, 40+scn(200)), []byte("x"), []byte("y")}}
+		full := wire.EncCall(spec)[0]
+		fr, _ := wire.Decode(append([]byte(nil), full...))
+		spec.MaxFrame = fr.ArgOff + 2 + 1 + scn(30)
+		return wire.EncCall(spec)[0], "first fragment of a call whose method name continues in the next fragment"
 	case 14:
 		// a complete, valid small call (keeps legitimate state around the hostile frames)
 		return validReq(false, []byte{wire.CsumNone, wire.CsumCRC32, wire.CsumCRC32C}[scn(3)]), "valid call req"
